@@ -32,6 +32,7 @@ type variant struct {
 	Props []string      `json:"props"`
 	Why   string        `json:"why"`
 	Edits []variantEdit `json:"edits"`
+	Base  string        `json:"base"` // a behaviour-preserving refactoring (path under /verif) the edits are made on top of
 	patch string        // seeded defects: path of patch.diff
 }
 
@@ -57,6 +58,12 @@ func applyVariant(d string, v *variant) (bool, string) {
 			return false, "patch does not apply to the current tree: " + strings.TrimSpace(string(out))
 		}
 		return true, ""
+	}
+	if v.Base != "" {
+		cmd := exec.Command("patch", "-p1", "-s", "--fuzz=3", "-d", d, "-i", filepath.Join(verifDir, v.Base))
+		if out, err := cmd.CombinedOutput(); err != nil {
+			return false, "base refactoring does not apply to the current tree: " + strings.TrimSpace(string(out))
+		}
 	}
 	for _, e := range v.Edits {
 		hit := 0
